@@ -15,12 +15,18 @@ FIELD_INSTANCES = ([I('f_' + f, 'h_f_' + f) for f in PUBLIC_FIELDS + BOTH_FIELDS
                    + [CASE('hint', k, 4) for k in range(4)]
                    + [CASE('chat_state', k, 5, tiers=('quick', 'thorough') if k in (0, 4) else ('thorough',)) for k in range(5)]
                    + [CASE('marker', k, 3, tiers=('quick', 'thorough') if k == 1 else ('thorough',)) for k in range(3)])
+BIG = dict(unwind=40, cdefs={'DOM_MAXCH': 36, 'DOM_MAXATTR': 24}, mem_gb=8, timeout_s=600)
+COMPOSITE = [I('allset', 'h_allset', bound='message with EVERY extension set at once (12 public + 24 sensitive elements); ' + STR, **BIG),
+             I('allset_all', 'h_allset_all', bound='message with every extension set, unsplit (SceAll); ' + STR, **BIG),
+             I('envelope', 'h_envelope', bound='message with every extension set, real e2ee flow (outer stanza + SCE envelope content); ' + STR, **BIG),
+             I('ni_public', 'h_ni_public', bound='ANY subset of the whitelisted fields (2^12) x ANY subset of the sensitive fields (2^24, chat state/marker any enum value); ' + STR, unwind=16, cdefs={'DOM_MAXCH': 12, 'DOM_MAXATTR': 24}, mem_gb=8, timeout_s=600),
+             I('ni_sensitive', 'h_ni_sensitive', bound='every sensitive field set x ANY subset of the whitelisted fields (2^11); ' + STR, **BIG)]
 KF_INSTANCES = [I('kf_jmi', 'h_kf_jmi', known_finding=KF), I('kf_call_invite', 'h_kf_call_invite', known_finding=KF)]
 SPEC = dict(
     property='C17',
     groups=[
         dict(name='msg', harness='h.cpp', tus=TUS, models=MODELS, cxxdefs={'_GLIBCXX_RANGES': 1},
-             instances=FIELD_INSTANCES + KF_INSTANCES),
+             instances=FIELD_INSTANCES + COMPOSITE + KF_INSTANCES),
         dict(name='dbg', harness='h.cpp', tus=TUS, models=MODELS, cxxdefs={'_GLIBCXX_RANGES': 1, 'C17_DEBUG': 1},
              instances=[I('dbg%d' % k, 'h_dbg%d' % k, tiers=()) for k in (1, 2, 3, 4)]),
     ],
